@@ -12,7 +12,7 @@ import (
 func init() {
 	register(&propDef{
 		id: "C20", level: "other", perCfg: true,
-		explain: "Necessary structural conditions of C20, as must-facts and reaching definitions at the program points of the activation function (found by role: the innermost function of package varlink whose inlined view reads LISTEN_PID and builds a listener via os.NewFile + net.FileListener; analysed in that view, so descriptor selection may live in a helper) and of the listener setup. V1: every non-nil return is result #0 of net.FileListener(os.NewFile(uintptr(fd), _)) on its err == nil edge and carries Atoi(LISTEN_PID) ok and equal to os.Getpid(), Atoi(LISTEN_FDS) ok and >= 1; every other return is nil (fallback). V4 completeness of the single-descriptor case: on paths consistent with a matching pid and LISTEN_FDS == 1 the only reachable nil return is the one after a failed net.FileListener. V2: every feasible reaching definition of fd at os.NewFile is either the constant 3 on paths where LISTEN_FDS is exactly 1, or 3+i on paths where LISTEN_FDNAMES is set, splits at ':' into exactly LISTEN_FDS entries, entry i equals \"varlink\", i is the ascending range index of that list and the loop is left at the first match; definitions that a later test on the path excludes (the initial -1 against `fd < 0`) are discarded per incoming edge. V3: in the inlined view of the listener setup's exported entry (the nearest exported function above the activation function, with the activation function kept as a call - so a step moved into a sibling helper or in front of the activation query is seen) the address path (stale-socket removal, listen) is taken only with `activation result == nil`, and a non-nil activation result is stored as the Service's listener unchanged (never closed or replaced). On GOOS=windows the activation function must be the constant nil.",
+		explain: "Necessary structural conditions of C20, as must-facts and reaching definitions at the program points of the activation function (found by role: the innermost function of package varlink whose inlined view reads LISTEN_PID and builds a listener via os.NewFile + net.FileListener; analysed in that view, so descriptor selection may live in a helper) and of the listener setup. V1: every non-nil return is result #0 of net.FileListener(os.NewFile(uintptr(fd), _)) on its err == nil edge and carries Atoi(LISTEN_PID) ok and equal to os.Getpid(), Atoi(LISTEN_FDS) ok and >= 1; every other return is nil (fallback). V4 completeness of the single-descriptor case: on paths consistent with a matching pid and LISTEN_FDS == 1 the only reachable nil return is the one after a failed net.FileListener. V2: every feasible reaching definition of fd at os.NewFile is either the constant 3 on paths where LISTEN_FDS is exactly 1, or 3+i on paths where LISTEN_FDNAMES is set, splits at ':' into exactly LISTEN_FDS entries, entry i equals \"varlink\", i is the ascending range index of that list and the loop is left at the first match; definitions that a later test on the path excludes (the initial -1 against `fd < 0`) are discarded per incoming edge. V3: in the inlined view of the listener setup's exported entry (the nearest exported function above the activation function, with the activation function kept as a call - so a step moved into a sibling helper or in front of the activation query is seen) the address path (stale-socket removal, listen) is taken only with `activation result == nil`, and a non-nil activation result is stored as the Service's listener unchanged (never closed or replaced). On GOOS=windows the activation function must be the constant nil. V3 also: outside the listener setup nothing in the library calls the address path's listen/remove primitives.",
 		notDec:  "That descriptor 3+i really is the i-th inherited socket (systemd contract); net.FileListener's verdict on descriptors that are not listening sockets (it returns an error, which V1 maps to the fallback).",
 		trusted: []string{"strconv.Atoi returns err == nil only for decimal integers", "strings.Split returns the ':'-separated entries in order", "net.FileListener fails for a descriptor that is not a listening stream socket"},
 		run:     runC20,
